@@ -6,6 +6,8 @@ import (
 	"context"
 	"errors"
 	"io"
+	"io/fs"
+	gopath "path"
 	"strings"
 
 	"github.com/bufbuild/buf/private/gen/data/datawkt"
@@ -53,6 +55,11 @@ func Compile(sources map[string]string, roots []string, sourceInfo bool) *Result
 		Resolver: &protocompile.SourceResolver{Accessor: func(path string) (io.ReadCloser, error) {
 			if text, ok := sources[path]; ok {
 				return io.NopCloser(strings.NewReader(text)), nil
+			}
+			// an import names a file by its canonical path only (protoc: no ".", "..", empty or absolute
+			// components); the bucket of built-in files would normalise the spelling and find the file
+			if path != gopath.Clean(path) || strings.HasPrefix(path, "/") {
+				return nil, fs.ErrNotExist
 			}
 			obj, err := datawkt.ReadBucket.Get(ctx, path)
 			if err != nil {
